@@ -21,7 +21,7 @@ run_one() {
      || { git -C $wt apply --3way $V/seeded/$d/patch.diff >/dev/null 2>&1 || { git -C $wt reset -q --hard; false; }; } \
      || { git -C $wt checkout -q -- . && (cd $wt && patch -p1 -s -F3 --no-backup-if-mismatch -r - < $V/seeded/$d/patch.diff >/dev/null 2>&1) && (cd $wt && GOFLAGS=-mod=mod go build ./... 2>/dev/null); }; then
     checks=$id
-    case $d in C05-w2-2) checks="C05 C12";; C11-2) checks="C04";; C08-w5-2) checks="C08 C06";; C12-w5-1) checks="C12 C17";; C07-w6-2) checks="C07 C18";; C11-w6-2) checks="C11 C09";; esac
+    case $d in C05-w2-2) checks="C05 C12";; C11-2) checks="C04";; C08-w5-2) checks="C08 C06";; C12-w5-1) checks="C12 C17";; C07-w6-2) checks="C07 C18";; C11-w6-2) checks="C11 C09";; C10-w7-1) checks="C10 C08";; esac
     res=missed
     for c in $checks; do
       VERIF_REPO=$wt $V/bin/check $c --tier quick > $OUT/$d-$c.log 2>&1; rc=$?
